@@ -116,13 +116,36 @@ func detDepth(p *core.Program, c []*ssa.Function) (bool, string) {
 	for _, f := range c {
 		in[f] = true
 	}
+	// the depth parameter, by use: an int parameter that a recursive call passes on as itself or itself+const, or
+	// that is compared (> / >=) with a constant; its name does not matter
 	depthOf := func(f *ssa.Function) *ssa.Parameter {
+		var byCmp *ssa.Parameter
 		for _, pa := range f.Params {
-			if b, ok := pa.Type().Underlying().(*types.Basic); ok && b.Kind() == types.Int && strings.Contains(strings.ToLower(pa.Name()), "depth") {
-				return pa
+			b, ok := pa.Type().Underlying().(*types.Basic)
+			if !ok || b.Kind() != types.Int || pa.Referrers() == nil {
+				continue
+			}
+			for _, ref := range *pa.Referrers() {
+				if bo, ok := ref.(*ssa.BinOp); ok && bo.X == ssa.Value(pa) {
+					if _, isC := core.ConstInt(bo.Y); !isC {
+						continue
+					}
+					switch bo.Op {
+					case token.ADD:
+						if bo.Referrers() != nil {
+							for _, r2 := range *bo.Referrers() {
+								if cc := core.CallOf(r2); cc != nil && in[core.StaticCallee(cc)] {
+									return pa
+								}
+							}
+						}
+					case token.GTR, token.GEQ:
+						byCmp = pa
+					}
+				}
 			}
 		}
-		return nil
+		return byCmp
 	}
 	guard := false
 	incr := map[*ssa.Function]bool{}
@@ -445,17 +468,10 @@ func rootedAt(v ssa.Value, f *ssa.Function, pkgPrefix string, d int) bool {
 // the 'tree size <= constant' test.
 func detSizeCap(p *core.Program) (bool, string) {
 	n := 0
+	builders := scevBuilders(p)
 	for _, fn := range p.FuncsIn("pkg/analysis/loop") {
 		// members of the constructing recursion
-		self := false
-		core.InstrsOf(fn, func(in ssa.Instruction) {
-			if c := core.CallOf(in); c != nil {
-				if callee := core.StaticCallee(c); callee != nil && strings.HasPrefix(callee.Name(), "computeSCEV") && strings.HasPrefix(fn.Name(), "computeSCEV") {
-					self = true
-				}
-			}
-		})
-		if !self {
+		if !builders[fn] {
 			continue
 		}
 		bad := ""
@@ -465,7 +481,7 @@ func detSizeCap(p *core.Program) (bool, string) {
 				return
 			}
 			callee := core.StaticCallee(&c.Call)
-			if callee == nil || !p.IsProdFunc(callee) || strings.HasPrefix(callee.Name(), "computeSCEV") {
+			if callee == nil || !p.IsProdFunc(callee) || builders[callee] {
 				return
 			}
 			// does the callee allocate a composite node from its arguments?
@@ -478,7 +494,7 @@ func detSizeCap(p *core.Program) (bool, string) {
 			fromRec := false
 			for _, a := range c.Call.Args {
 				if rc, ok := a.(*ssa.Call); ok {
-					if rcallee := core.StaticCallee(&rc.Call); rcallee != nil && strings.HasPrefix(rcallee.Name(), "computeSCEV") {
+					if rcallee := core.StaticCallee(&rc.Call); rcallee != nil && builders[rcallee] {
 						fromRec = true
 					}
 				}
@@ -495,8 +511,7 @@ func detSizeCap(p *core.Program) (bool, string) {
 				if _, isC := core.ConstInt(y); !isC {
 					return false, false
 				}
-				s := core.Canon(x)
-				return strings.Contains(s, "Size(") || strings.Contains(s, "size("), false
+				return sumsTreeSizes(p, x, 0), false
 			})
 			if !(ok1 && n1 > 0) {
 				bad = "composite expression node built from recursive results without the size test in " + core.FuncName(fn)
@@ -510,6 +525,54 @@ func detSizeCap(p *core.Program) (bool, string) {
 		return false, "no size-capped construction of composite expression nodes found"
 	}
 	return true, "composite expression nodes are built from recursive results only under the tree-size cap, so every traversal is bounded by a constant"
+}
+
+// sumsTreeSizes: x is a sum containing calls of a repository function func(loop.SCEV) int (the node counter).
+func sumsTreeSizes(p *core.Program, x ssa.Value, d int) bool {
+	if d > 6 {
+		return false
+	}
+	switch v := x.(type) {
+	case *ssa.BinOp:
+		return v.Op == token.ADD && (sumsTreeSizes(p, v.X, d+1) || sumsTreeSizes(p, v.Y, d+1))
+	case *ssa.Call:
+		g := core.StaticCallee(&v.Call)
+		if g == nil || !p.IsProdFunc(g) || len(g.Params) != 1 {
+			return false
+		}
+		rt := resultTypes(g)
+		return len(rt) == 1 && rt[0].String() == "int" && strings.HasSuffix(g.Params[0].Type().String(), "loop.SCEV")
+	case *ssa.Phi:
+		for _, e := range v.Edges {
+			if sumsTreeSizes(p, e, d+1) {
+				return true
+			}
+		}
+	}
+	return false
+}
+
+// scevBuilders: the mutually recursive functions of pkg/analysis/loop that build a symbolic expression from an
+// SSA value (result loop.SCEV, a parameter of type ssa.Value, in a recursive component).
+func scevBuilders(p *core.Program) map[*ssa.Function]bool {
+	out := map[*ssa.Function]bool{}
+	for _, c := range recursiveSCCs(p) {
+		for _, f := range c {
+			if f.Pkg == nil || !strings.HasSuffix(f.Pkg.Pkg.Path(), "/pkg/analysis/loop") {
+				continue
+			}
+			rt := resultTypes(f)
+			if len(rt) != 1 || !strings.HasSuffix(rt[0].String(), "loop.SCEV") {
+				continue
+			}
+			for _, pa := range f.Params {
+				if strings.HasSuffix(pa.Type().String(), "ssa.Value") {
+					out[f] = true
+				}
+			}
+		}
+	}
+	return out
 }
 
 // detMemo: the function returns a memoised result before doing anything else and stores results.
